@@ -2347,6 +2347,10 @@ class Engine:
                 r = smt.IS_NONE(a.t)
             elif isinstance(a, NoneV) and isinstance(b, ObjV):
                 r = smt.IS_NONE(b.t)
+            elif (isinstance(b, NoneV) and getattr(a, 'is_none_term', None) is not None) or \
+                    (isinstance(a, NoneV) and getattr(b, 'is_none_term', None) is not None):
+                # an optional value of a contract's own model: None-ness is a symbolic boolean
+                r = a.is_none_term if isinstance(b, NoneV) else b.is_none_term
             elif isinstance(b, NoneV) or isinstance(a, NoneV):
                 r = z3.BoolVal(isinstance(a, NoneV) and isinstance(b, NoneV))
             elif isinstance(a, BoolV) and isinstance(b, BoolV):
